@@ -3,7 +3,7 @@
 import json, os
 VERIF = os.path.dirname(os.path.dirname(os.path.abspath(__file__)))
 HOOK_COMMITS = ["2a964bf", "fa83b6a", "22f8253"]
-FIX_COMMITS = ["856f863", "44eea87", "8d8cd8f", "c6ea88a", "2faf33b", "0d420de", "4332f80", "9bebd46", "9e0bb9e", "1bf31d6", "ab48742", "d06c1bd", "4f39ea6", "f10f40c", "fecaf88", "bca9b9b"]
+FIX_COMMITS = ["856f863", "44eea87", "8d8cd8f", "c6ea88a", "2faf33b", "0d420de", "4332f80", "9bebd46", "9e0bb9e", "1bf31d6", "ab48742", "d06c1bd", "4f39ea6", "f10f40c", "fecaf88", "bca9b9b", "985ed6d"]
 
 POOLNOTE = 'Trusted: Coq kernel+VM; hand model of pool/{mod,checkout,idle,key,service}.rs + connector staging with one atomic step per operation (exact for a current-thread runtime; interleavings inside one Checkout::poll on a multi-thread runtime are R1); oracles O1 (hyper SendRequest readiness, scripted by the harness connection), O2 tokio oneshot, O3 tokio current-thread FIFO run queue, O7 http::Uri; hook verif_pool_snapshot (read-only). Every pool property compares the FULL observation (events, snapshot, woken futures) of model and implementation after every operation. No axioms.'
 
